@@ -263,10 +263,11 @@ class Fixpoint(Base):
                 pts = 1
                 for a, b in before.tolist():
                     pts *= (b - a + 1)
-                if pts <= self.ofix_points:
-                    key = (before.tobytes(), ent["flags"].tobytes())
+                if True:  # (boxes beyond the enumeration limit are decided by the support oracle, see _ofix)
                     ref = self._ofix(props, before.tolist(), ent["flags"].tolist())
                     self.c("ofix_compared")
+                    if pts > self.ofix_points:
+                        self.c("ofix_compared_beyond_enumeration")
                     if ref is None:
                         self.fail("C08", "missed_inconsistency_vs_greatest_fixpoint",
                                   "reference propagation finds the constraints inconsistent on %r but the pass "
@@ -339,7 +340,12 @@ class Fixpoint(Base):
                 if not flags[p]:
                     continue
                 box = [[doms[d][0] + o, doms[d][1] + o] for d, o in zip(idxs, offs)]
-                h, _ = O.hull(name, box, params)
+                if O.box_points(box) <= 2000:
+                    h, _ = O.hull(name, box, params)
+                else:
+                    from framework import support
+
+                    h = support.hull(name, box, params)  # exact without enumeration (all BC types are supported)
                 if h is None:
                     return None
                 for (d, o), (lo, hi) in zip(zip(idxs, offs), h):
